@@ -76,54 +76,55 @@ def addGap (b : Band) (s e : Nat × Nat) (w : Nat) : Band :=
     (List.range' s.2 (e.2 - s.2)).foldl
       (fun b c => addEntry b (s.1 + (e.1 - s.1) * (c - s.2) / (e.2 - s.2)) c w) b
 
-/-- `Band::set_boundaries(start, end, k, w, scoring)`; only the four clip penalties of `scoring` are read -/
-def setBoundaries (b : Band) (start end_ : Nat × Nat) (k w : Nat) (cl : Clip) : Band :=
+/-- the block `// ---- START ----` of `Band::set_boundaries` -/
+def boundStart (b : Band) (start : Nat × Nat) (k w : Nat) (cl : Clip) : Band :=
   let lazy_extend := 2 * k
-  -- -------------- START --------------
-  let (r, c) := start
-  let b1 :=
-    if r = 0 ∧ c = 0 then b else
-    let score_to_start : Int := (if r > 0 then cl.xp else 0) + (if c > 0 then cl.yp else 0)
-    if score_to_start = 0 then
-      let d := min lazy_extend (min r c)
+  let r := start.1
+  let c := start.2
+  if r = 0 ∧ c = 0 then b else
+  let score_to_start : Int := (if r > 0 then cl.xp else 0) + (if c > 0 then cl.yp else 0)
+  if score_to_start = 0 then
+    let d := min lazy_extend (min r c)
+    addGap (addKmer b (r - d) (c - d) d w) (r - lazy_extend, c - lazy_extend) (r - d, c - d) w
+  else
+    let diagonal_score : Int := if r > c then cl.xp else if r < c then cl.yp else 0
+    if diagonal_score = 0 then
+      let d := min r c
       let b := addKmer b (r - d) (c - d) d w
-      addGap b (r - lazy_extend, c - lazy_extend) (r - d, c - d) w
-    else
-      let diagonal_score : Int := if r > c then cl.xp else if r < c then cl.yp else 0
-      if diagonal_score = 0 then
-        let d := min r c
-        let b := addKmer b (r - d) (c - d) d w
-        let st := (r - lazy_extend, c - lazy_extend)
-        let en := (r - d, c - d)
-        if st.1 ≤ en.1 ∧ st.2 ≤ en.2 then addGap b st en w else b
-      else addGap b (0, 0) start w
-  -- -------------- END --------------
-  let b := b1
+      let st := (r - lazy_extend, c - lazy_extend)
+      let en := (r - d, c - d)
+      if st.1 ≤ en.1 ∧ st.2 ≤ en.2 then addGap b st en w else b
+    else addGap b (0, 0) start w
+
+/-- the block `// ---- END ----` of `Band::set_boundaries` (note `r == self.rows`: the code compares the end of the last
+k-mer with `m + 1`, which a k-mer inside `x` never reaches, so the block is always entered) -/
+def boundEnd (b : Band) (end_ : Nat × Nat) (k w : Nat) (cl : Clip) : Band :=
+  let lazy_extend := 2 * k
   let r := end_.1 + k
   let c := end_.2 + k
   if r = b.rows ∧ c = b.cols then b else
   let score_from_end : Int := (if r = b.rows then 0 else cl.xs) + (if c = b.cols then 0 else cl.ys)
+  let r1 (d : Nat) := min b.rows (r + d) - 1
+  let c1 (d : Nat) := min b.cols (c + d) - 1
+  let r2 := min b.rows (r + lazy_extend)
+  let c2 := min b.cols (c + lazy_extend)
   if score_from_end = 0 then
     let d := min lazy_extend (min (b.rows - r) (b.cols - c))
-    let b := addKmer b r c d w
-    let r1 := min b.rows (r + d) - 1
-    let c1 := min b.cols (c + d) - 1
-    let r2 := min b.rows (r + lazy_extend)
-    let c2 := min b.cols (c + lazy_extend)
-    if r1 ≤ r2 ∧ c1 ≤ c2 then addGap b (r1, c1) (r2, c2) w else b
+    let b' := addKmer b r c d w
+    if r1 d ≤ r2 ∧ c1 d ≤ c2 then addGap b' (r1 d, c1 d) (r2, c2) w else b'
   else
     let dr := b.rows - r
     let dc := b.cols - c
     let diagonal_score : Int := if dr > dc then cl.xs else if dr < dc then cl.ys else 0
     if diagonal_score = 0 then
       let d := min dr dc
-      let b := addKmer b r c d w
-      let r1 := min b.rows (r + d) - 1
-      let c1 := min b.cols (c + d) - 1
-      let r2 := min b.rows (r + lazy_extend)
-      let c2 := min b.cols (c + lazy_extend)
-      if r1 ≤ r2 ∧ c1 ≤ c2 then addGap b (r1, c1) (r2, c2) w else b
+      let b' := addKmer b r c d w
+      if r1 d ≤ r2 ∧ c1 d ≤ c2 then addGap b' (r1 d, c1 d) (r2, c2) w else b'
     else addGap b (r, c) (b.rows, b.cols) w
+
+/-- `Band::set_boundaries(start, end, k, w, scoring)`; only the four clip penalties of `scoring` are read -/
+def setBoundaries (b : Band) (start end_ : Nat × Nat) (k w : Nat) (cl : Clip) : Band :=
+  boundEnd (boundStart b start k w cl) end_ k w cl
 
 /-- `Band::full_matrix`: `ranges.clear(); ranges.resize(cols, 0..rows)` -/
 def fullMatrix (b : Band) : Band := { b with ranges := List.replicate b.cols (0, b.rows) }
